@@ -85,6 +85,7 @@ type WorldSpec struct {
 	QuantDepth int // quantifier nesting depth
 	MaxDepth   int // connective depth
 	AtomFilter func(AtomKind) bool
+	WideOr     bool // root formula: a disjunction of 3-5 conjunctions of 2-3 (possibly negated) leaves, and its dual
 }
 
 // NewWorld draws a formula family and builds its graph. Root is the top-level formula over target class ex.T<Base>.
@@ -94,6 +95,38 @@ func NewWorld(r *rand.Rand, spec WorldSpec) (*World, F) {
 	quants := w.newQuants(spec.NQuants, spec.QuantDepth, spec.MaxDepth, spec.AtomFilter)
 	gen := &LeafGen{R: r, Atoms: atoms, Quants: quants, MaxDepth: spec.MaxDepth}
 	root := w.boundedFormula(gen, atoms, quants, 40, 160)
+	if spec.WideOr && len(atoms)+len(quants) >= 2 {
+		// cross-product expansion with several composite operands (up to 3^5 branches): the shape in which
+		// aliasing or off-by-one slips of the branch expansion show
+		for try := 0; try < 50; try++ {
+			m := 3 + r.Intn(3)
+			var ops []F
+			for k := 0; k < m; k++ {
+				var conj []F
+				for j := 0; j < 2+r.Intn(2); j++ {
+					var l F = gen.leaf()
+					if r.Intn(3) == 0 {
+						l = FNot{l}
+					}
+					conj = append(conj, l)
+				}
+				if r.Intn(4) == 0 {
+					ops = append(ops, FNot{FOr{conj}}) // a negated disjunction is a conjunction, too
+				} else {
+					ops = append(ops, FAnd{conj})
+				}
+			}
+			var f F = FOr{ops}
+			if r.Intn(3) == 0 {
+				f = FNot{FAnd{ops}} // dual: negated conjunction of conjunctions
+			}
+			f = ensureLeaves(f, atoms, quants, r)
+			if b, t := w.Cost(f, false); b <= 250 && t <= 1600 {
+				root = f
+				break
+			}
+		}
+	}
 	// all 2^k assignments of the plain atoms
 	for m := 0; m < 1<<len(atoms); m++ {
 		n := w.newNode(fmt.Sprintf("T%d", spec.Base))
